@@ -22,7 +22,7 @@ func init() {
 			"LF vs CRLF renderings of well-formed text; File(path) on a plain and a gzip file vs Reader on the bytes, and File on a missing path; " +
 			"non-trivial = a schedule in which some chunk boundary falls strictly inside a line, or a File configuration; distinct by hash of (format, input, schedule)",
 		Assumptions: []string{"errors are compared by presence and position, not by text", "CRLF conversion is applied only to line terminators of well-formed text (fields contain no CR/LF; Newick names free of CR/LF)"},
-		MinEvents: map[string]int64{"schedules": 5000, "boundary_inside_line": 1000, "file_plain": 60, "file_gz": 60, "file_missing": 6, "crlf_pairs": 100, "partitions": 1000},
+		MinEvents:   map[string]int64{"schedules": 5000, "boundary_inside_line": 1000, "file_plain": 60, "file_gz": 60, "file_missing": 6, "crlf_pairs": 100, "partitions": 1000},
 		Units: []Unit{
 			{Name: "schedules", QShards: 4, TShards: 12, Run: c06Schedules},
 			{Name: "partitions", QShards: 2, TShards: 8, Run: c06Partitions},
